@@ -33,6 +33,7 @@ func checkC17(c *Ctx) {
 	c.c17Map()
 	c.c17Replace()
 	c.c17Lua()
+	c.c17AnswerVerbatim()
 	c.c17Pool()
 }
 
@@ -1552,4 +1553,73 @@ func (c *Ctx) c17Isolated() {
 		})
 	}
 	r.Floor("C17/LUA/isolated", "handlers exposing their event parameter to Lua", n, 1)
+}
+
+// c17AnswerVerbatim: "a replaced inbound message is delivered to exactly the mailboxes and with
+// the sender, recipients and subject the hook returned". Once the script has run, the host does
+// not write to the message it answered with: after a CallByParam — in the function that makes
+// the call and, behind its return, in the handlers that called it — no store to a field of an
+// event.InboundMessage is reachable. (Copying the inbound message *before* the call, to isolate
+// it from the script, is the C17/LUA/isolated rule's business and lies before the call.)
+func (c *Ctx) c17AnswerVerbatim() {
+	p, r := c.P, c.R
+	rule := "C17/LUA/answer-verbatim"
+	r.Rule(rule, "after (*LState).CallByParam no store to a field of event.InboundMessage is reachable in the Lua host (followed into callees and behind the caller's return): the script's answer is handed on as the script left it")
+	imT := p.Named("pkg/extension/event", "InboundMessage")
+	if imT == nil {
+		return
+	}
+	writesIM := func(in ssa.Instruction) bool {
+		st, ok := in.(*ssa.Store)
+		if !ok {
+			return false
+		}
+		fa, ok := st.Addr.(*ssa.FieldAddr)
+		if !ok {
+			return false
+		}
+		pt, ok := fa.X.Type().Underlying().(*types.Pointer)
+		return ok && types.Identical(pt.Elem(), imT)
+	}
+	n := 0
+	for _, fn := range pkgFuncs(p, luaRel) {
+		fn := fn
+		eng.EachInstr(fn, func(in ssa.Instruction) {
+			call, ok := in.(*ssa.Call)
+			if !ok || eng.CalleeName(call.Common()) != "(*github.com/yuin/gopher-lua.LState).CallByParam" {
+				return
+			}
+			n++
+			cons := "after-CallByParam@" + shortFn(fn)
+			var bad ssa.Instruction
+			seen := map[ssa.Instruction]bool{}
+			var from func(at ssa.Instruction, depth int)
+			from = func(at ssa.Instruction, depth int) {
+				if bad != nil || seen[at] || depth > 2 {
+					return
+				}
+				seen[at] = true
+				s1 := &eng.Search{Target: writesIM, Deep: true, DeepHit: true}
+				if hit := s1.After(at); hit != nil {
+					bad = hit
+					return
+				}
+				if eng.FuncPkgPath(at.Parent()) != eng.Mod+"/"+luaRel {
+					return
+				}
+				for _, cs := range p.StaticCallSites(at.Parent()) {
+					if cl, isCall := cs.Instr.(*ssa.Call); isCall && eng.FuncPkgPath(cl.Parent()) == eng.Mod+"/"+luaRel {
+						from(cl, depth+1)
+					}
+				}
+			}
+			from(call, 0)
+			if bad != nil {
+				r.Bad(rule, cons, p.InstrPos(call), "after the script has answered, the host writes a field of an inbound message at %s: what is delivered is no longer what the hook returned — a field the script set on purpose (an empty mailbox list to drop the mail, an empty subject) is replaced", p.InstrPos(bad))
+			} else {
+				r.Ok(rule, cons, p.InstrPos(call), "no write to an inbound message after the call")
+			}
+		})
+	}
+	r.Floor(rule, "CallByParam sites", n, 1)
 }
